@@ -72,6 +72,7 @@ class Splice:
     loop_body_start: Dict[int, str] = field(default_factory=dict)
     loop_body_end: Dict[int, str] = field(default_factory=dict)
     loop_iter: Dict[int, str] = field(default_factory=dict)
+    loop_header: Dict[int, str] = field(default_factory=dict)
     before: List[Tuple[str, int, str]] = field(default_factory=list)
     after: List[Tuple[str, int, str]] = field(default_factory=list)
     replace_sig: Optional[str] = None
@@ -110,6 +111,8 @@ def parse_splice(path: str) -> Splice:
                 sp.loop_body_start[n] = text
             elif what == "body_end":
                 sp.loop_body_end[n] = text
+            elif what == "header":
+                sp.loop_header[n] = text.strip()
             else:
                 raise ValueError(f"{path}: unknown loop splice {what}")
         elif k in ("before", "after"):
@@ -1154,10 +1157,36 @@ def splice_fn(text: str, sp: Splice, item: str, vacuity: bool = False) -> str:
                 fr.insert(ct[bf].end, " " + " ".join(lets) + " ")
     if sp.loop_inv or sp.loop_body_start or sp.loop_iter or sp.loop_body_end:
         lp = R.loops(ct, bo + 1, bc)
-        for n in set(sp.loop_inv) | set(sp.loop_body_start) | set(sp.loop_iter) | set(sp.loop_body_end):
-            if n >= len(lp):
+        wanted = set(sp.loop_inv) | set(sp.loop_body_start) | set(sp.loop_iter) | set(sp.loop_body_end)
+        where: Dict[int, int] = {n: n for n in wanted}
+        if sp.loop_header and all(n in sp.loop_header for n in wanted):
+            # loops are identified by how their header STARTS (`//@ loop N header`): a loop that is no longer there takes
+            # its invariants with it instead of shifting everybody else's onto the wrong loop
+            where = {}
+            depth_of = [sum(1 for (_k2, o2, c2) in lp if o2 < kw < c2) for (kw, _o, _c) in lp]     # loops enclosing each loop
+            for n in sorted(wanted):
+                htxt = sp.loop_header[n]
+                md = re.match(r"\[depth=(\d+)\]\s*", htxt)
+                want_depth = int(md.group(1)) if md else None
+                pat = R.tokenize_pattern(htxt[md.end():] if md else htxt)
+                hits = [k for k, (kw, lbo, lbc) in enumerate(lp) if [t.text for t in ct[kw:kw + len(pat)]] == pat
+                        and (want_depth is None or depth_of[k] == want_depth)]
+                if len(hits) == 1:
+                    where[n] = hits[0]
+                elif len(hits) > 1:
+                    raise ExtractError(f"{item}: loop header `{sp.loop_header[n]}` matches {len(hits)} loops")
+            if len(set(where.values())) != len(where):
+                raise ExtractError(f"{item}: two loop splices landed on the same loop")
+        for n in wanted:
+            if n not in where:
+                # the loop is gone: the function is judged without that loop's invariants; their labels are recorded so
+                # that a FAILED verdict is not turned into "undecided" merely because those obligations no longer exist
+                labs = re.findall(r"//\s*@([A-Za-z_][A-Za-z0-9_]*)", sp.loop_inv.get(n, "") + sp.loop_body_start.get(n, "") + sp.loop_body_end.get(n, ""))
+                fr.insert(ct[bo].end, f"\n// DROPPED-LOOP {item} #{n}: {','.join(labs)}\n")
+                continue
+            if where[n] >= len(lp):
                 raise ExtractError(f"{item}: loop #{n} not found (function has {len(lp)})")
-            kw, lbo, lbc = lp[n]
+            kw, lbo, lbc = lp[where[n]]
             if n in sp.loop_iter:
                 j = kw
                 while ct[j].text != "in":
@@ -2037,10 +2066,18 @@ def check_unit(name: str, variant: Optional[str] = None, rlimit: Optional[float]
         else:
             lock = [l.strip() for l in open(lock_path) if l.strip()]
             if sorted(lock) != sorted(ur.obligations):
-                ur.status = "undecided"
                 missing = sorted(set(lock) - set(ur.obligations))
                 extra = sorted(set(ur.obligations) - set(lock))
-                ur.reason = f"obligation set differs from lock: missing={missing[:5]} extra={extra[:5]}"
+                # obligations of a loop that no longer exists (splice_fn records them) may be missing -- but only a FAILED
+                # verdict survives that: "everything verified" with fewer obligations than locked stays undecided
+                gone = set()
+                for mm in re.finditer(r"// DROPPED-LOOP (\S+) #\d+: (\S*)", text):
+                    gone |= {f"{mm.group(1)}#{lab}" for lab in mm.group(2).split(",") if lab}
+                if ur.failed and ur.status != "undecided" and not extra and missing and set(missing) <= gone:
+                    ur.reason += f"(a loop of the function is gone; its {len(missing)} invariant obligation(s) are not counted) "
+                else:
+                    ur.status = "undecided"
+                    ur.reason = f"obligation set differs from lock: missing={missing[:5]} extra={extra[:5]}"
     if ur.status == "ok" and ur.failed:
         ur.status = "failed"
     # vacuity run: every spliced assert(false) must fail
